@@ -36,6 +36,7 @@ pub struct Rig<F: gs::TopicSubscriptionFilter + Send + 'static = gs::AllowAllSub
 impl<F: gs::TopicSubscriptionFilter + Send + 'static> Rig<F> {
     pub fn new(rng: &mut Rng, chunking: bool) -> Self {
         gs::verif::clock::reset();
+        let _ = gs::verif::sent::take_prunes();
         Rig { net: Net::new(rng.next_u64(), chunking), raw: vec![], next_tag: 1 }
     }
     pub fn add_gs(&mut self, seed: u64, make: impl FnOnce(&libp2p_identity::Keypair) -> gs::Behaviour<gs::IdentityTransform, F>) -> usize {
